@@ -149,8 +149,14 @@ func (s *state) unmarshal(data []byte, fixItem fix.Item) error {
 		}
 
 		startFirstFieldTag := bytes.Index(data[startNoTag:], fix.Delimiter)
+		if startFirstFieldTag == -1 {
+			return fmt.Errorf("no elements found in the array")
+		}
 		arrayString := data[startNoTag+startFirstFieldTag:]
 		endFirstFieldTag := bytes.Index(arrayString, []byte{'='})
+		if endFirstFieldTag == -1 {
+			return fmt.Errorf("no elements found in the array")
+		}
 
 		firstTag := arrayString[:endFirstFieldTag+1]
 		arrayItems := splitGroup(arrayString, firstTag)
